@@ -431,6 +431,13 @@ def rule_unchecked_feed(ctx):
     r(ctx)
 
 
+def rule_lying_iter(ctx):
+    """Two writers never write the same entry: `extend` writes only indices of its own reservation, whatever its iterator
+    yields (shared with C08 / C11)."""
+    from props.c08 import rule_lying_iter as r
+    r(ctx)
+
+
 def rules(ctx):
     ctx.run_rule("C09.order-table", rule_order_table)
     ctx.run_rule("C09.unchecked-feed", rule_unchecked_feed)
@@ -439,3 +446,4 @@ def rules(ctx):
     ctx.run_rule("C09.unsafe-impls", rule_unsafe_impls)
     ctx.run_rule("C09.send-sync-bounds", rule_send_sync_bounds)
     ctx.run_rule("C09.send-sync-witness", rule_send_sync_witness)
+    ctx.run_rule("C09.lying-iter", rule_lying_iter)
